@@ -9,6 +9,8 @@ import (
 	"strings"
 
 	"github.com/tobgu/qframe"
+	"github.com/tobgu/qframe/aggregation"
+	"github.com/tobgu/qframe/config/csv"
 	"github.com/tobgu/qframe/config/eval"
 	"github.com/tobgu/qframe/config/groupby"
 	"github.com/tobgu/qframe/filter"
@@ -597,10 +599,21 @@ func resolveFrame(w *World, d OpDesc, recv *Member, client int) *Exec {
 			return frameOutcome(res, ex.Desc, client, true)
 		}
 	case "tocsv":
-		ex.Desc = id + ".ToCSV"
+		header := p(0)%4 != 0
+		var cols []string
+		if p(1)%2 == 0 && len(names) > 1 {
+			// the Columns option: a rotation of the frame's own order
+			k := 1 + p(2)%(len(names)-1)
+			cols = append(append([]string{}, names[k:]...), names[:k]...)
+		}
+		ex.Desc = fmt.Sprintf("%s.ToCSV(header=%v, columns=%q)", id, header, cols)
 		ex.Run = func() *Outcome {
 			var buf bytes.Buffer
-			err := f.ToCSV(&buf)
+			opts := []csv.ToConfigFunc{csv.Header(header)}
+			if cols != nil {
+				opts = append(opts, csv.Columns(append([]string{}, cols...)))
+			}
+			err := f.ToCSV(&buf, opts...)
 			return &Outcome{Canon: fmt.Sprintf("%v|%q", err, buf.String())}
 		}
 	case "tojson":
@@ -842,8 +855,8 @@ func aggsFor(names, typs, keys []string, d OpDesc) []qframe.Aggregation {
 				}
 				s := strings.Join(parts, "+")
 				return &s
-			}}
-			aggs = append(aggs, qframe.Aggregation{Fn: fns[v%2], Column: name, As: as})
+			}, aggregation.StrJoin(","), "count"}
+			aggs = append(aggs, qframe.Aggregation{Fn: fns[v], Column: name, As: as})
 		}
 	}
 	return aggs
